@@ -69,7 +69,7 @@ def schedules(alphabet, k, max_gap):
 # Hypothesis strategies
 # ---------------------------------------------------------------------------------------------
 @st.composite
-def step_items(draw, is_async, self_calls, soon, outs=True, max_items=4):
+def step_items(draw, is_async, self_calls, soon, outs=True, max_items=4, soon_modes=('ok', 'ok', 'raise')):
     kinds = ['status']
     if outs:
         kinds += ['out', 'out']
@@ -96,17 +96,17 @@ def step_items(draw, is_async, self_calls, soon, outs=True, max_items=4):
             arg = draw(TEXTS) if what in ('pause', 'kill') else None
             items.append(['call', what, arg])
         elif kind == 'soon':
-            items.append(['soon', draw(st.sampled_from(['ok', 'ok', 'raise'])), draw(st.sampled_from(['c1', 'c2']))])
+            items.append(['soon', draw(st.sampled_from(list(soon_modes))), draw(st.sampled_from(['c1', 'c2']))])
     return items
 
 
 @st.composite
-def programs(draw, max_steps=5, self_calls=(), soon=False, endings=('value', 'unsuccessful', 'raise', 'kill'), waits=True, kwargs=False):
+def programs(draw, max_steps=5, self_calls=(), soon=False, endings=('value', 'unsuccessful', 'raise', 'kill'), waits=True, kwargs=False, soon_modes=('ok', 'ok', 'raise')):
     n = draw(st.integers(1, max_steps))
     steps = []
     for idx in range(n):
         is_async = draw(st.booleans())
-        body = draw(step_items(is_async, self_calls, soon))
+        body = draw(step_items(is_async, self_calls, soon, soon_modes=soon_modes))
         last = idx == n - 1
         if last or draw(st.integers(0, 9)) == 0:
             kind = draw(st.sampled_from(endings))
